@@ -25,7 +25,7 @@ import operator
 import os
 import shutil
 from collections import Counter
-from typing import Any
+from typing import Any, Iterator
 
 BIN_OPS = ["+", "-", "*", "/", "//", "%", "**", "<<", ">>", "&", "|", "^"]
 UN_OPS = ["-", "~", "+"]
@@ -69,37 +69,62 @@ def level(leaves: list[str], depth: int) -> list[str]:
     return [e for e, _ in allx]
 
 
-def deep3() -> list[str]:
-    """Depth-3 slice: op(d2, leaf), op(leaf, d2), unary(d2) with d2 = all depth-2 expressions over
-    CORE_DEEP that are not already depth <= 1."""
-    d1 = set(level(CORE_DEEP, 1))
-    d2 = [e for e in level(CORE_DEEP, 2) if e not in d1]
-    out = [f"{op}({e})" for op in UN_OPS for e in d2]
+def _depth2_only(core: list[str]) -> Iterator[str]:
+    """Expressions of depth exactly 2 over the core leaves, canonical order, generated lazily
+    (full parenthesisation makes distinct (op, operands) triples distinct strings)."""
+    d1 = level(core, 1)
+    leaves = set(core)
+    for op in UN_OPS:
+        for e in d1:
+            if e not in leaves:
+                yield f"{op}({e})"
+    for op in BIN_OPS:
+        for a in d1:
+            la = a in leaves
+            pa = par(a, la)
+            for b in d1:
+                lb = b in leaves
+                if la and lb:
+                    continue
+                yield f"{pa} {op} {par(b, lb)}"
+
+
+def _deep3() -> Iterator[str]:
+    """Depth-3 slice: unary(d2), d2 op x, x op d2 for every depth-2 expression d2 over CORE_DEEP."""
+    d2 = list(_depth2_only(CORE_DEEP))
+    for op in UN_OPS:
+        for e in d2:
+            yield f"{op}({e})"
     for op in BIN_OPS:
         for e in d2:
             for x in DEEP_OUTER:
-                out.append(f"({e}) {op} {x}")
-                out.append(f"{x} {op} ({e})")
-    return out
+                yield f"({e}) {op} {x}"
+                yield f"{x} {op} ({e})"
 
 
-_FAM: dict[str, list[str]] = {}
+def _family_iter(name: str) -> Iterator[str]:
+    """Families are pairwise disjoint: wide-depth1 has depth <=1 over all leaves (the core leaves are
+    a subset), the core families have depth exactly 2, deep3 depth exactly 3."""
+    if name == "wide-depth1":
+        return iter(level(WIDE_LEAVES, 1))
+    if name.startswith("core-depth2"):
+        core = CORE_QUICK if name.endswith("quick") else CORE_THOROUGH
+        assert set(core) <= set(WIDE_LEAVES)
+        return _depth2_only(core)
+    return _deep3()
 
 
-def family(name: str) -> list[str]:
-    """Families are pairwise disjoint: the core families drop what wide-depth1 already contains
-    (the core leaves are a subset of the wide leaves)."""
-    if name not in _FAM:
-        if name == "wide-depth1":
-            _FAM[name] = level(WIDE_LEAVES, 1)
-        elif name.startswith("core-depth2"):
-            core = CORE_QUICK if name.endswith("quick") else CORE_THOROUGH
-            assert set(core) <= set(WIDE_LEAVES)
-            d1 = set(level(core, 1))
-            _FAM[name] = [e for e in level(core, 2) if e not in d1]
-        else:
-            _FAM[name] = deep3()
-    return _FAM[name]
+_COUNT: dict[str, int] = {}
+
+
+def family_count(name: str) -> int:
+    if name not in _COUNT:
+        _COUNT[name] = sum(1 for _ in _family_iter(name))
+    return _COUNT[name]
+
+
+def family_slice(name: str, start: int, stop: int) -> list[str]:
+    return list(itertools.islice(_family_iter(name), start, stop))
 
 
 FAMILY_TEXT = {
@@ -208,6 +233,12 @@ def same_value(a: Any, b: Any) -> bool:
     if isinstance(a, (float, complex)):
         return repr(a) == repr(b)  # distinguishes -0.0 from 0.0 and equates nan with nan
     return bool(a == b)
+
+
+def short_src(src: str) -> str:
+    import re
+
+    return re.sub(r"\d{40,}", lambda m: f"{m.group(0)[:4]}...({len(m.group(0))} digits)", src)
 
 
 def short(v: Any) -> str:
@@ -389,7 +420,7 @@ def run_item(item: dict) -> dict:
     """One slice of one expression family.  Runs in a freshly forked process."""
     from mc.common import scratch
 
-    srcs = family(item["family"])[item["start"]:item["stop"]]
+    srcs = family_slice(item["family"], item["start"], item["stop"])
     work = scratch("c12", f"fold-{os.getpid()}")
     st: Counter[str] = Counter()
     viol: list[dict] = []
@@ -419,6 +450,8 @@ def run_item(item: dict) -> dict:
                                  f"native-parser tree folds to {both}", "detail": {"sub": "fold", "expr": s, "native": True}})
                     continue
                 st["evaluations"] += 2
+                if not native and (ref[0] == "exc" or both["mypy"][0] != "none" or both["mypyc"][0] != "none"):
+                    st["nontrivial"] += 1
                 bad = {f: judge(both[f], ref) for f in both}
                 for f in both:
                     st[f"{f}_{both[f][0]}"] += 1 if not native else 0
@@ -435,8 +468,8 @@ def run_item(item: dict) -> dict:
                 st["failing_expressions"] += 1
                 viol.append({
                     "signature": f"fold:{tail}",
-                    "what": f"`{s}`: eval -> {ref[0]} {short(ref[1])}; " + "; ".join(f"{f} fold -> {both[f][0]} {short(both[f][1])}" for f in failing)
-                            + (f" (smallest failing sub-expression `{sub}`)" if sub != s else ""),
+                    "what": f"`{short_src(s)}`: eval -> {ref[0]} {short(ref[1])}; " + "; ".join(f"{f} fold -> {both[f][0]} {short(both[f][1])}" for f in failing)
+                            + (f" (smallest failing sub-expression `{short_src(sub)}`)" if sub != s else ""),
                     "detail": {"sub": "fold", "expr": s, "blamed": sub, "folders": failing, "kind": kind,
                                "reference": [ref[0], short(ref[1])], "folded": {f: [both[f][0], short(both[f][1])] for f in both}},
                 })
@@ -487,7 +520,7 @@ def items(tier: str, chunk: int) -> tuple[list[dict], dict]:
     out = []
     space: dict[str, Any] = {}
     for fam, parsers, wired_upto in fams:
-        n = len(family(fam))
+        n = family_count(fam)
         space[fam] = {"expressions": n, "what": FAMILY_TEXT[fam], "parsers": ["fastparse", "native"][: len(parsers)],
                       "wired_lane_for_first": min(n, wired_upto)}
         for s in range(0, n, chunk):
